@@ -17,6 +17,8 @@ C04 — executable model of the time-related transaction checks, following the R
 All integers are `Nat`. /repo is compiled with `overflow-checks = true` in every profile, so a `u64`
 `+`/`*` that leaves the range *panics*; a panic (also `expect` on a missing header, division by a
 zero epoch length, indexing an empty vector) is the verdict `.panic`.
+The timestamp metric uses saturating arithmetic since /repo commit 71994ca (finding F11: before it,
+`value * 1000` and `base_timestamp + timestamp` panicked for large 56-bit values).
 U256 products cannot overflow here (all factors are < 2^64 and at most three are multiplied), so the
 rational arithmetic is unchecked.
 Constants (flag masks, metric patterns, the `* 1000`, field widths) come from `Gen/Tx.lean`.
@@ -105,12 +107,22 @@ def collectTs (db : HeaderDb) : Nat → Nat → List Nat → Option (List Nat)
       let acc' := acc ++ [h.ts]
       if h.number = 0 then some acc' else collectTs db fuel h.parent acc'
 
+/-- insertion into a sorted list (the result of `sort_unstable` on integers is unique, so any
+sorting function models it) -/
+def insertSorted (x : Nat) : List Nat → List Nat
+  | [] => [x]
+  | y :: ys => if x ≤ y then x :: y :: ys else y :: insertSorted x ys
+
+def sortNats : List Nat → List Nat
+  | [] => []
+  | x :: xs => insertSorted x (sortNats xs)
+
 /-- `block_median_time(block_hash, count)`: sort, take element `len >> 1` (index panic on empty) -/
 def medianTime (db : HeaderDb) (id count : Nat) : Option Nat :=
   match collectTs db count id [] with
   | none => none
   | some ts =>
-    let s := ts.mergeSort (fun a b => decide (a ≤ b))
+    let s := sortNats ts
     s[s.length / 2]?
 
 /-! ## TxVerifyEnv -/
@@ -192,9 +204,19 @@ def flagsValid (s : Nat) : Bool :=
 inductive Metric where
   | blockNumber (v : Nat)
   | epoch (e : Nat)
-  /-- `value * 1000`; `none` = the u64 multiplication overflows (panic) -/
-  | timestamp (ms : Option Nat)
+  /-- `value.saturating_mul(1000)` -/
+  | timestamp (ms : Nat)
   deriving Repr, DecidableEq
+
+/-- `u64::saturating_mul` -/
+def satMul (a b : Nat) : Nat := if a * b < U64 then a * b else U64 - 1
+/-- `u64::saturating_add` -/
+def satAdd (a b : Nat) : Nat := if a + b < U64 then a + b else U64 - 1
+
+/-- the arithmetic of `extract_metric` before commit 71994ca (`value * 1000` on u64 with overflow
+checks): `none` = panic. Kept only for the witness theorem `C04.prefix_timestamp_overflows`. -/
+def preFixTimestampMs (value : Nat) : Option Nat :=
+  if value * TIMESTAMP_SCALE < U64 then some (value * TIMESTAMP_SCALE) else none
 
 /-- `Since::extract_metric` -/
 def extractMetric (s : Nat) : Option Metric :=
@@ -203,7 +225,7 @@ def extractMetric (s : Nat) : Option Metric :=
   if m = METRIC_BLOCK_NUMBER then some (.blockNumber value)
   else if m = METRIC_EPOCH then some (.epoch value)
   else if m = METRIC_TIMESTAMP then
-    some (.timestamp (if value * TIMESTAMP_SCALE < U64 then some (value * TIMESTAMP_SCALE) else none))
+    some (.timestamp (satMul value TIMESTAMP_SCALE))
   else none
 
 /-- `a < b` on two optional rationals, panic if either conversion panicked -/
@@ -226,12 +248,21 @@ def verifyAbsolute (cfg : Cfg) (db : HeaderDb) (env : Env) (i s : Nat) : V :=
       | none => .panic
       | some true => .immature i
       | some false => .ok
-  | some (.timestamp none) => .panic
-  | some (.timestamp (some ts)) =>
+  | some (.timestamp ts) =>
     match medianTime db env.parentOfCommit cfg.medianCount with
     | none => .panic
     | some tip => if tip < ts then .immature i else .ok
   | none => .invalidSince i
+
+/-- `base_timestamp` in `verify_relative_lock`: the timestamp of the input's block once RFC 28 is
+active at the commit epoch number, `parent_median_time` of that block before; `none` = `expect` panic -/
+def relBaseTimestamp (cfg : Cfg) (db : HeaderDb) (env : Env) (info : TxInfo) : Option Nat :=
+  if env.epochNumber cfg.closest ≥ cfg.rfc0028 then
+    (findHdr db info.blockHash).map (·.ts)
+  else
+    match findHdr db info.blockHash with
+    | none => none
+    | some h => medianTime db h.parent cfg.medianCount
 
 /-- `verify_relative_lock` (called only for relative sinces) -/
 def verifyRelative (cfg : Cfg) (db : HeaderDb) (env : Env) (i s : Nat) (info : Option TxInfo) : V :=
@@ -252,22 +283,14 @@ def verifyRelative (cfg : Cfg) (db : HeaderDb) (env : Env) (i s : Nat) (info : O
         match epToRational env.epoch, epToRational info.blockEpoch, epToRational (epNormalize e) with
         | some a, some b0, some b1 => if a.lt (b0.add b1) then .immature i else .ok
         | _, _, _ => .panic
-    | some (.timestamp none) => .panic
-    | some (.timestamp (some ts)) =>
-      let base :=
-        if env.epochNumber cfg.closest ≥ cfg.rfc0028 then
-          (findHdr db info.blockHash).map (·.ts)
-        else
-          match findHdr db info.blockHash with
-          | none => none
-          | some h => medianTime db h.parent cfg.medianCount
-      match base with
+    | some (.timestamp ts) =>
+      match relBaseTimestamp cfg db env info with
       | none => .panic
       | some base =>
         match medianTime db env.parentOfCommit cfg.medianCount with
         | none => .panic
         | some cur =>
-          if base + ts < U64 then (if cur < base + ts then .immature i else .ok) else .panic
+          if cur < satAdd base ts then .immature i else .ok
     | none => .invalidSince i
 
 /-- the body of the loop in `SinceVerifier::verify` for one input -/
